@@ -1068,6 +1068,22 @@ func (v *Visitor) EnterOperationDefinition(opRef int) {
 
 func (v *Visitor) EnterDocument(operation, definition *ast.Document) {
 	v.Operation, v.Definition = operation, definition
+	v.resetOperationState()
+}
+
+// resetOperationState drops what was collected while planning the previous operation:
+// a Planner plans many operations with one Visitor, and all of it is keyed by refs of the operation document.
+// The maps are cleared in place, CostVisitor holds on to fieldPlanners.
+func (v *Visitor) resetOperationState() {
+	v.objects, v.objectFieldsStack = nil, nil
+	v.fieldStack, v.currentField = nil, nil
+	clear(v.fieldConfigs)
+	clear(v.exportedVariables)
+	clear(v.indirectInterfaceFields)
+	clear(v.pathCache)
+	clear(v.plannerFields)
+	clear(v.fieldPlanners)
+	clear(v.fieldEnclosingTypeNames)
 }
 
 func (v *Visitor) LeaveDocument(_, _ *ast.Document) {
